@@ -206,6 +206,12 @@ func (e *sfxEval) eval1(v ssa.Value) int {
 		}
 		if f := x.Call.StaticCallee(); f != nil {
 			switch {
+			case isBuilderRead(f):
+				// res.String() / buf.Bytes(): the suffix of what was written into the builder up to here
+				if c, ok := e.builderAt(x); ok {
+					return c
+				}
+				return sfxNOT | sfxCRLF | sfxEMPTY
 			case f.String() == "fmt.Sprintf":
 				if fs, ok := world.ConstString(x.Call.Args[0]); ok {
 					return e.sprintf(fs, varargsOf(x.Call.Args[1]))
@@ -241,6 +247,114 @@ func (e *sfxEval) eval1(v ssa.Value) int {
 		}
 	}
 	return sfxNOT | sfxCRLF | sfxEMPTY
+}
+
+// ---- strings.Builder / bytes.Buffer accumulators ----
+
+func isBuilderRead(f *ssa.Function) bool {
+	switch f.String() {
+	case "(*strings.Builder).String", "(*bytes.Buffer).String", "(*bytes.Buffer).Bytes":
+		return true
+	}
+	return false
+}
+
+// builderWrite: in writes to the builder at address recv; returns the written value (nil = unknown
+// text, "" handled by caller) and, for Fprintf, the format call.
+func builderWrite(in ssa.Instruction, recv ssa.Value) (val ssa.Value, fprintf *ssa.Call, ok bool) {
+	c, isCall := in.(*ssa.Call)
+	if !isCall {
+		return nil, nil, false
+	}
+	f := c.Call.StaticCallee()
+	if f == nil {
+		return nil, nil, false
+	}
+	switch f.String() {
+	case "(*strings.Builder).WriteString", "(*bytes.Buffer).WriteString", "(*strings.Builder).Write", "(*bytes.Buffer).Write",
+		"(*strings.Builder).WriteByte", "(*bytes.Buffer).WriteByte", "(*strings.Builder).WriteRune", "(*bytes.Buffer).WriteRune":
+		if len(c.Call.Args) == 2 && c.Call.Args[0] == recv {
+			return c.Call.Args[1], nil, true
+		}
+	case "fmt.Fprintf", "fmt.Fprint", "fmt.Fprintln":
+		if len(c.Call.Args) >= 1 {
+			if mi, isMI := c.Call.Args[0].(*ssa.MakeInterface); isMI && mi.X == recv {
+				return nil, c, true
+			}
+		}
+	}
+	return nil, nil, false
+}
+
+// builderAt: suffix class of the content of the builder read by call rd, by a forward may-analysis
+// (join = union of classes) over the writes to that builder in rd's function.
+func (e *sfxEval) builderAt(rd *ssa.Call) (int, bool) {
+	if len(rd.Call.Args) == 0 {
+		return 0, false
+	}
+	recv := rd.Call.Args[0]
+	if _, ok := recv.(*ssa.Alloc); !ok {
+		return 0, false
+	}
+	fn := rd.Parent()
+	apply := func(state int, in ssa.Instruction) (int, bool) {
+		val, fp, ok := builderWrite(in, recv)
+		if !ok {
+			return state, false
+		}
+		var c int
+		switch {
+		case fp != nil:
+			c = sfxNOT | sfxCRLF | sfxEMPTY
+			if fp.Call.StaticCallee().String() == "fmt.Fprintf" && len(fp.Call.Args) >= 3 {
+				if fs, ok := world.ConstString(fp.Call.Args[1]); ok {
+					c = e.sprintf(fs, varargsOf(fp.Call.Args[2]))
+				}
+			}
+		case isStringy(val.Type()) || isByteSlice(val.Type()):
+			c = e.eval(val)
+		default:
+			c = sfxNOT // a byte / rune
+			if k, ok := world.ConstInt(val); ok && k == '\n' {
+				c = sfxNOT | sfxCRLF
+			}
+		}
+		return concatClass(state, c), true
+	}
+	in := map[*ssa.BasicBlock]int{}
+	if len(fn.Blocks) == 0 {
+		return 0, false
+	}
+	in[fn.Blocks[0]] = sfxEMPTY
+	for changed, it := true, 0; changed && it < 20; it++ {
+		changed = false
+		for _, b := range fn.Blocks {
+			st, ok := in[b]
+			if !ok {
+				continue
+			}
+			for _, ins := range b.Instrs {
+				st, _ = apply(st, ins)
+			}
+			for _, s2 := range b.Succs {
+				if in[s2]|st != in[s2] {
+					in[s2] |= st
+					changed = true
+				}
+			}
+		}
+	}
+	st, ok := in[rd.Block()]
+	if !ok {
+		return 0, false
+	}
+	for _, ins := range rd.Block().Instrs {
+		if ins == ssa.Instruction(rd) {
+			break
+		}
+		st, _ = apply(st, ins)
+	}
+	return st, true
 }
 
 func clsStr(c int) string {
